@@ -3,7 +3,7 @@ Each model states what it assumes; anything else raises Unsupported."""
 import math
 import z3
 
-from .values import (Sym, Obj, SStr, Opaque, Unsupported, PyRaise, arith, compare, sym_abs,
+from .values import (FmtStr, Sym, Obj, SStr, Opaque, Unsupported, PyRaise, arith, compare, sym_abs,
                      to_bool, to_z3_num, lift, mk_str, str_chars, And, Or, Not, Ite, simp)
 
 WS = (9, 10, 11, 12, 13, 28, 29, 30, 31, 32)      # str.strip()/int() whitespace within ASCII (A-ASCII)
@@ -532,9 +532,7 @@ def _str_method(s, name):
             except (ValueError, IndexError, KeyError, TypeError) as e:
                 raise PyRaise(type(e).__name__, str(e))
         if isinstance(s, str):
-            r = ex.format_model(s, a, k) if hasattr(ex, 'format_model') else NotImplemented
-            if r is not NotImplemented:
-                return r
+            return FmtStr([('fmt', s, list(a), dict(k))])
         return Opaque('str.format')
 
     def count(ex, sub):
